@@ -45,7 +45,7 @@ func TestReplay(t *testing.T) {
 			t.Fatalf("bad replay data: %v", err)
 		}
 		replayProbe(t, c, r)
-	case doc.Check == "history":
+	case doc.Check == "history" || doc.Check == "expiry":
 		var r historyReplay
 		if err := json.Unmarshal(doc.Data, &r); err != nil {
 			t.Fatalf("bad replay data: %v", err)
